@@ -725,6 +725,8 @@ def _desc(x):
 
 
 def execute(item):
+    import time
+    t_cpu = time.process_time()
     rank, mode, memo = item["rank"], item["mode"], item["memo"]
     shapes = shapes_of(rank)
     counts = {}
@@ -783,6 +785,7 @@ def execute(item):
     inc("extra_evaluations", n_triples - 1)
     inc("expressions", len(item["exprs"]))
     inc("triples:" + item["fam"], n_triples)
+    inc("cpu_ms", int((time.process_time() - t_cpu) * 1000))     # informational only (not compared anywhere)
     first = item["exprs"][0]
     return {"status": "viol" if viols else "ok",
             "outcome": item["fam"] + ":" + "+".join(sorted(outcomes)),
